@@ -525,8 +525,8 @@ def op_max_entangled(w, s):
 def op_from_mps(w, s):
     """Mps on the reference chain -> linear tree state (C11: converting a chain state to a tree state preserves it)."""
     qntot = s["qntot"]
-    if not dense.sector_mask(w.model, qntot).any():
-        return "skipped"
+    if not dense.sector_mask(w.model, qntot).any() or not w.spec.get("ham"):
+        return "skipped"     # from_mps also converts the model Hamiltonian: it needs at least one term
     try:
         mps = Mps.random(w.model, np.array(qntot) if len(qntot) > 1 else int(qntot[0]), s["m"], percent=1.0)
     except Exception:
